@@ -343,6 +343,18 @@ C09_UNITS = [
     pkunit("cancel_blocker_alone", parker_co=True, kind="blocker", rounds=["park"], unparkers=0, unparks_each=0, canceller=True),
     pkunit("cancel_handle", parker_co=True, kind="handle", rounds=["park", "tpark"], unparkers=1, unparks_each=1, canceller=True),
     pkunit("cancel_sleep", parker_co=True, kind="handle", rounds=["sleep"], unparkers=0, unparks_each=0, canceller=True),
+    # F24: the cancel registration over two consecutive blocking calls (CancelReg.tla): counter-examples on the pinned order,
+    # repaired order verified; the real code explored with the coroutine free to run while the kernel side of its previous
+    # yield is still at work (no hold-back), every explored execution validated by TLC against the repaired model
+    dict(name="cancelreg_sleep_spec", tlc=[("spec/l1/MCCancelReg.tla", "spec/l1/MCCancelReg_sleep.cfg"), ("spec/l1/MCCancelReg.tla", "spec/l1/MCCancelReg_sleep_fixed.cfg")],
+         tlc_expect_error="NoLostCancel is violated"),
+    dict(name="cancelreg_park_spec", tlc=[("spec/l1/MCCancelReg.tla", "spec/l1/MCCancelReg_park.cfg"), ("spec/l1/MCCancelReg.tla", "spec/l1/MCCancelReg_park_fixed.cfg")],
+         tlc_expect_error="NoLostCancel is violated"),
+    dict(pkunit("reg_sleep_park", parker_co=True, kind="handle", rounds=["sleep", "park"], unparkers=0, unparks_each=0, canceller=True, ao=False, no_holdback=True, n=400),
+         tv_gen=("spec/l1/MCCancelReg.tla", "spec/l1/MCCancelReg_sleep_fixed.cfg", "reg_sleep")),
+    dict(pkunit("reg_park_park", parker_co=True, kind="blocker", rounds=["park", "park"], unparkers=1, unparks_each=1, canceller=True, ao=False, no_holdback=True,
+                unpark_first_only=True, n=400),
+         tv_gen=("spec/l1/MCCancelReg.tla", "spec/l1/MCCancelReg_park_fixed.cfg", "reg_park")),
     # one victim through every primitive: join result, drops, nothing leaked or poisoned, no hang
     cmunit("mix_a0", ["park", "sleep", "lock", "sem", "recv"], 0),
     cmunit("mix_a2", ["park", "sleep", "lock", "sem", "recv"], 2),
